@@ -258,7 +258,11 @@ class Signal( NamedObject, Connectable ):
       start, stop = idx, idx + 1
     elif isinstance( idx, slice ):
       assert idx.step is None, f"The slice {idx} is invalid: a signal slice cannot have a step"
-      start, stop = idx.start, idx.stop
+      # s.x[:8] / s.x[8:]: an omitted bound is the end of the (sliced) signal
+      if s._dsl.slice is None: width = s._dsl.Type.nbits
+      else:                    width = s._dsl.slice.stop - s._dsl.slice.start
+      start = 0     if idx.start is None else idx.start
+      stop  = width if idx.stop  is None else idx.stop
     else: assert False, f"The slice {idx} is invalid"
 
     if s._dsl.slice is None:
